@@ -27,6 +27,21 @@ def _setup(chk, model):
     return ev, r
 
 
+def _is_copy_of(t, src) -> bool:
+    """t is {k: v for k, v in src.items()} / dict(src) / src.copy() / {**src}: the same entries, nothing filtered or replaced."""
+    items = T.mk_call(T.mk_attr(src, "items"), [])
+    if t[0] == "comp" and t[1] == "dict" and len(t[3]) == 1 and not t[4] and t[3][0][1] == items and t[2][0] == "tuple" and len(t[2][1]) == 2:
+        k, v = t[2][1]
+        if k[0] == "tuple" and len(k[1]) == 2 and k[1][0][0] == "index" and k[1] == (T.mk_index(k[1][0][1], T.ZERO), T.mk_index(k[1][0][1], T.ONE)):
+            k = k[1][0][1]  # a pair key spelled by its two components
+        return k[0] == "index" and k[2] == T.ZERO and k[1][0] == "elem" and k[1][1] == items and v == T.mk_index(k[1], T.ONE)
+    if t[0] == "call" and T.call_name(t) in ("dict", "collections.OrderedDict") and t[2] == (src,) and not t[3]:
+        return True
+    if t[0] == "call" and t[1] == T.mk_attr(src, "copy") if isinstance(t[1], tuple) else (t[0] == "call" and t[1] == src[1] + ".copy" if src[0] == "sym" else False):
+        return not t[2]
+    return False
+
+
 def _episode(ev, r):
     """Events of one evaluation of the per-episode generator on symbolic (rng_eps, _graphs, _ts_max)."""
     n0 = len(ev.events)
@@ -159,6 +174,11 @@ def run(chk: Check, model):
         ok = len(ins) == 1 and mentions(ins[0][2], existing) and flow.implies(e.guard, T.mk_not(ins[0]))
         chk.add("C12.augment", f"{what}: never overwritten", ok, f"{what}[{T.show(e.key)[:60]}] is generated under {T.show(e.guard)[:200]}; it must be guarded by `key not in` the given {what}", chk.loc(f_ep, e.node))
         if ok:
+            # the table the new items are added to starts as the given one, whole: every recorded vertex set / edge is kept,
+            # whether or not `nodes` mentions its node
+            chk.add("C12.augment", f"{what}: every existing entry is kept", _is_copy_of(ins[0][2], S(existing)), f"the {what} table starts as {T.show(ins[0][2])[:200]}, expected a full copy "
+                    f"of {existing} (entries of recorded nodes that are not in `nodes` must survive augmentation)", chk.loc(f_ep, e.node))
+        if ok:
             g = e.guard
             for rz in raises:
                 if rz.loops[:1] == e.loops[:1]:
@@ -175,6 +195,19 @@ def run(chk: Check, model):
                 g2 = t_ if t_ != T.FALSE else f_
             chk.add("C12.augment", f"{what}: generated exactly when missing", g2 == T.mk_not(ins[0]), f"besides the rejections of unsupported settings, {what} generation is additionally "
                     f"conditioned: {T.show(g)[:240]}", chk.loc(f_ep, e.node))
+    # the horizon of a graph that is being augmented: per episode, the latest end time over all recorded vertices
+    gl = [l for l in r.loops.values() if l.kind == "for" and l.iter == T.mk_call("graphs.vertices.items", []) and len(l.env_in) == 1]
+    okh = len(gl) == 1
+    if okh:
+        l = gl[0]
+        (nm, sym_in), = l.env_in.items()
+        v_el = T.mk_index(("elem", l.iter, l.uid), T.ONE)
+        latest = T.mk_call(T.mk_attr(T.mk_attr(v_el, "ts_end"), "max"), [], [("axis", T.ONE)])
+        body = l.env_out.get(nm, T.NONE)
+        okh = body == T.mk_max([sym_in, latest]) \
+            and l.pre.get(nm, T.NONE)[0] == "call" and T.call_name(l.pre[nm]) == "jax.numpy.zeros"
+    chk.add("C12.mask", "augment: horizon = latest end time over all recorded vertices, per episode", bool(okh), "ts_max of a given graph must be the running maximum(ts_max, v.ts_end.max(axis=1)) over "
+            "graphs.vertices, started at zeros (padded slots hold -1: the last entry of a shorter episode is not its latest end time)", chk.loc(fi))
     kinds = {"advance": 0, "PHASE": 0, "blocking": 0, "BUFFER": 0}
     for rz in raises:
         for k in kinds:
